@@ -51,7 +51,7 @@ TStep ==
           \* coherence is preserved: demanded when every input file was coherent;
           \* a zipped (several index lists) selection replaces standard dimensions
           \* by a point dimension and is outside the IOAPI conventions
-          /\ (EnfC10 /\ g.f.cls \in {"ioapi_base", "ioapi"} /\ C10Demanded(g.f, g.m)
+          /\ (EnfC10 /\ g.m.isioapi /\ C10Demanded(g.f, g.m)
                 /\ Coherent(src.f, src.m)
                 /\ (\A k \in 1..Len(e.others) : Coherent(heap[e.others[k]].f, heap[e.others[k]].m))
                 /\ ~(e.act = "slice" /\ MultiList(e.args))) =>
